@@ -42,7 +42,7 @@ class _MeshGrid:
     def __init__(self, aa, points, neighbors, sizes):
         from autoarray.inversion.linear_obj.neighbors import Neighbors
 
-        self._pts = np.array(points, dtype=float).reshape(-1, 2)
+        self._pts = (points if isinstance(points, np.ndarray) else np.array(points, dtype=float)).reshape(-1, 2)
         self.neighbors = Neighbors(arr=np.array(neighbors, dtype=int).reshape(len(sizes), -1),
                                    sizes=np.array(sizes, dtype=int))
         self.shape = self._pts.shape
@@ -68,6 +68,9 @@ def _mock_mapper(aa, mock, regularization=None):
 
     n = mock["params"]
     pts = [[fl(a), fl(b)] for a, b in mock.get("points", [["0", "0"]] * n)]
+    as_int = bool(mock.get("int_inputs"))
+    if as_int and all(float(v).is_integer() for r in pts for v in r):
+        pts = np.array([[int(a), int(b)] for a, b in pts], dtype=np.int64).reshape(-1, 2)
     width = max([len(r) for r in mock["neighbors"]] + [1])
     nbrs = [list(r) + [-1] * (width - len(r)) for r in mock["neighbors"]]
     mesh = _MeshGrid(aa, pts, nbrs if n else np.zeros((0, 1)), mock["sizes"])
@@ -76,13 +79,34 @@ def _mock_mapper(aa, mock, regularization=None):
         m, s, w = _split_arrays(mock["split"])
         psw = PixSubWeights(mappings=m, sizes=s, weights=w)
     sig = np.array([fl(v) for v in mock["signals"]]) if mock.get("signals") is not None else None
+    if sig is not None and as_int and all(float(v).is_integer() for v in sig):
+        sig = sig.astype(np.int64)
     return aa.m.MockMapper(source_plane_mesh_grid=mesh, pixel_signals=sig,
                            pix_sub_weights_split_cross=psw, regularization=regularization)
 
 
-def _make_scheme(aa, name, args, signal_scale):
-    a = [fl(v) for v in args]
-    ss = fl(signal_scale) if signal_scale is not None else 1.0
+def _typed(v, how):
+    """the same real number handed over as a Python float / int / numpy scalar"""
+    f = Fraction(v)
+    if how == "int" and f.denominator == 1:
+        return int(f)
+    if how == "np32" and Fraction(float(np.float32(float(f)))) == f:
+        return np.float32(float(f))
+    if how == "np64":
+        return np.float64(float(f))
+    return float(f)
+
+
+DEFAULT_ARGS = {"Constant": ["1"], "ConstantZeroth": ["1", "1"], "Zeroth": ["1"], "AdaptiveBrightness": ["1", "1"],
+                "BrightnessZeroth": ["1"], "ConstantSplit": ["1"], "AdaptiveBrightnessSplit": ["1", "1"]}
+
+
+def _make_scheme(aa, name, args, signal_scale, how="float", defaults=False):
+    if defaults and name in DEFAULT_ARGS:
+        # constructor defaults (every coefficient and the signal scale default to 1.0)
+        return getattr(aa.reg, name)()
+    a = [_typed(v, how) for v in args]
+    ss = _typed(signal_scale, how) if signal_scale is not None else 1.0
     if name == "Constant":
         return aa.reg.Constant(coefficient=a[0])
     if name == "ConstantZeroth":
@@ -112,12 +136,38 @@ def _real_mapper(aa, case):
     mask = aa.Mask2D(mask=m, pixel_scales=scales, origin=origin)
     osamp = aa.OverSamplerUniform(mask=mask, sub_size=case["sub"])
     grid = osamp.over_sampled_grid
-    adapt = aa.Array2D(values=np.array([fl(v) for v in case["adapt"]]), mask=mask)
+    ad = [Fraction(v) for v in case["adapt"]]
+    if all(v.denominator == 1 for v in ad) and case.get("int_inputs"):
+        adapt_vals = [int(v) for v in ad]  # plain Python ints
+    else:
+        adapt_vals = np.array([float(v) for v in ad])
+    adapt = aa.Array2D(values=adapt_vals, mask=mask)
+    route = case.get("route", "direct")
     if case["source"] == "rect":
+        if route == "mesh":
+            # the pixelization route: aa.mesh.Rectangular(...).mapper_grids_from + the aa.Mapper factory
+            mg = aa.mesh.Rectangular(shape=tuple(case["mesh_shape"])).mapper_grids_from(
+                mask=mask, source_plane_data_grid=grid, adapt_data=adapt)
+            return aa.Mapper(mapper_grids=mg, regularization=None, over_sampler=osamp)
         mesh = aa.Mesh2DRectangular.overlay_grid(grid=grid, shape_native=tuple(case["mesh_shape"]))
         cls = aa.MapperRectangular
     else:
-        pts = np.array([[fl(a), fl(b)] for a, b in case["points"]])
+        P = [[Fraction(a), Fraction(b)] for a, b in case["points"]]
+        integral = all(v.denominator == 1 for r in P for v in r)
+        cont = case.get("container", "ndarray")
+        if integral and case.get("int_inputs"):
+            rows = [[int(a), int(b)] for a, b in P]
+            pts = {"list": rows, "tuple": tuple(tuple(r) for r in rows),
+                   "ndarray": np.array(rows, dtype=np.int64)}.get(cont, np.array(rows, dtype=np.int64))
+        else:
+            rows = [[float(a), float(b)] for a, b in P]
+            pts = {"list": rows, "tuple": tuple(tuple(r) for r in rows), "ndarray": np.array(rows),
+                   "irregular": aa.Grid2DIrregular(values=rows)}.get(cont, np.array(rows))
+        if route == "mesh":
+            mg = aa.mesh.Delaunay().mapper_grids_from(
+                mask=mask, source_plane_data_grid=grid,
+                source_plane_mesh_grid=aa.Grid2DIrregular(values=rows), adapt_data=adapt)
+            return aa.Mapper(mapper_grids=mg, regularization=None, over_sampler=osamp)
         mesh = aa.Mesh2DDelaunay(values=pts)
         cls = aa.MapperDelaunay
     mg = aa.MapperGrids(mask=mask, source_plane_data_grid=grid, source_plane_mesh_grid=mesh,
@@ -311,25 +361,60 @@ class C07(PropertyCheck):
         """mask + anisotropic scales + off-centre origin + positive adapt image + sub size"""
         h, w = rng.randint(3, 6 if big else 5), rng.randint(3, 6 if big else 5)
         m, kind = gen.random_mask(rng, h, w, kind=rng.choice(["all", "block", "annulus", "cross", "bernoulli", "blocks"]))
+        if rng.random() < 0.06:  # exactly one unmasked pixel
+            m = gen.full(h, w, True)
+            m[rng.randrange(h)][rng.randrange(w)] = False
         n_un = sum(1 for r in m for b in r if not b)
-        if n_un < 3:
-            m = gen.full(h, w, False)
-            n_un = h * w
         sy, sx = gen.scales_pair(rng)
         oy, ox = gen.origin_pair(rng)
-        adapt = [q(gen.pos_dyadic(rng, 1, 8, 2)) for _ in range(n_un)]
+        int_inputs = rng.random() < 0.2
+        if int_inputs:  # integer-valued adapt image, handed over as plain Python ints
+            adapt = [q(rng.randint(1, 9)) for _ in range(n_un)]
+            frame_extra = {"int_inputs": True}
+        else:
+            adapt = [q(gen.pos_dyadic(rng, 1, 8, 2)) for _ in range(n_un)]
+            frame_extra = {}
         if rng.random() < 0.2:  # zeros in the adapt image (still non-negative, max > 0)
             for i in range(0, n_un, 3):
                 adapt[i] = "0"
-            adapt[1] = "3"
+            adapt[min(1, n_un - 1)] = "3"
         return {"mask": mask_json(m), "scales": [q(sy), q(sx)], "origin": [q(oy), q(ox)],
-                "adapt": adapt, "sub": rng.choice([1, 1, 2])}
+                "adapt": adapt, "sub": rng.choice([1, 1, 2]), **frame_extra}
 
-    def _delaunay_points(self, rng, n):
+    def _harden(self, rng, c, kernel=False):
+        """round-3 axes: argument dtype / container, set-but-falsy values, constructor defaults,
+        alternative construction routes (same real inputs, so model and oracle are untouched)"""
+        r = rng.random()
+        if r < 0.25 and c.get("scheme") is not None:
+            # integer-valued coefficients, including 0 (not for kernels: the property wants them positive)
+            lo = 1 if kernel else 0
+            nargs = len(c["args"]) - (1 if kernel else 0)
+            c["args"] = [q(rng.randint(lo, 3)) for _ in range(nargs)] + (c["args"][-1:] if kernel else [])
+            c["arg_type"] = rng.choice(["int", "int", "np64", "float"])
+            if c.get("signal_scale") is not None and rng.random() < 0.5:
+                c["signal_scale"] = q(rng.choice([0, 1, 2]))
+        elif r < 0.4:
+            c["arg_type"] = rng.choice(["np32", "np64"])
+        elif r < 0.48 and c.get("scheme") in DEFAULT_ARGS:
+            c["defaults"] = True
+            c["args"] = list(DEFAULT_ARGS[c["scheme"]])
+            if c.get("signal_scale") is not None:
+                c["signal_scale"] = "1"
+        if c.get("source") in ("rect", "delaunay"):
+            if rng.random() < 0.25:
+                c["route"] = "mesh"
+            # Mesh2DDelaunay documents `Union[np.ndarray, List]`; a tuple of tuples is rejected by the clean code
+            c["container"] = rng.choice(["ndarray", "ndarray", "list", "list", "irregular"])
+        return c
+
+    def _delaunay_points(self, rng, n, integral=False):
         seen = set()
         pts = []
         while len(pts) < n:
-            p = (gen.dyadic(rng, -3, 3, 4), gen.dyadic(rng, -3, 3, 4))
+            if integral:
+                p = (Fraction(rng.randint(-6, 6)), Fraction(rng.randint(-6, 6)))
+            else:
+                p = (gen.dyadic(rng, -3, 3, 4), gen.dyadic(rng, -3, 3, 4))
             if p in seen:
                 continue
             seen.add(p)
@@ -390,6 +475,11 @@ class C07(PropertyCheck):
         sig[rng.randrange(n)] = Fraction(1)
         pts = self._delaunay_points(rng, n)
         o = {"params": n, "neighbors": nb, "sizes": sizes, "signals": qlist(sig), "points": pts}
+        if rng.random() < 0.2:  # integer dtype: 0/1 signals and integer mesh points as int64 arrays
+            sig = [Fraction(rng.randint(0, 1)) for _ in range(n)]
+            sig[rng.randrange(n)] = Fraction(1)
+            o.update({"signals": qlist(sig), "points": self._delaunay_points(rng, n, integral=True),
+                      "int_inputs": True})
         if with_split:
             o["split"] = self._mock_split(rng, n)
         return o
@@ -406,17 +496,22 @@ class C07(PropertyCheck):
                     if name in KERNEL_SCHEMES and mh * mw > (25 if quick else 49):
                         continue
                     args, ss = self._scheme_args(rng, name)
-                    yield {"tag": f"rect_{name}", "kind": "scheme", "source": "rect", "scheme": name,
-                           "args": args, "signal_scale": ss, "mesh_shape": [mh, mw], **frame}
+                    yield self._harden(rng, {"tag": f"rect_{name}", "kind": "scheme", "source": "rect", "scheme": name,
+                                             "args": args, "signal_scale": ss, "mesh_shape": [mh, mw], **frame},
+                                       kernel=name in KERNEL_SCHEMES)
         # 2. Delaunay vertex sets x all nine schemes
         for _ in range(30 if quick else 200):
             n = rng.randint(4, 9 if quick else 16)
-            pts = self._delaunay_points(rng, n)
+            integral = rng.random() < 0.25
+            pts = self._delaunay_points(rng, n, integral=integral)
             frame = self._data_frame(rng, big=True)
+            if integral:
+                frame["int_inputs"] = True
             for name in ALL_SCHEMES:
                 args, ss = self._scheme_args(rng, name)
-                yield {"tag": f"delaunay_{name}", "kind": "scheme", "source": "delaunay", "scheme": name,
-                       "args": args, "signal_scale": ss, "points": pts, **frame}
+                yield self._harden(rng, {"tag": f"delaunay{'_int' if integral else ''}_{name}", "kind": "scheme",
+                                         "source": "delaunay", "scheme": name, "args": args, "signal_scale": ss,
+                                         "points": pts, **frame}, kernel=name in KERNEL_SCHEMES)
         # 3. mock linear objects: dyadic tables (exact comparison), odd graphs, split tables
         for _ in range(160 if quick else 1200):
             n = rng.randint(1, 8)
@@ -425,8 +520,9 @@ class C07(PropertyCheck):
             name = rng.choice(RATIONAL_SCHEMES + SPLIT_SCHEMES + (["ExponentialKernel"] if n > 1 else []))
             mock = self._mock_obj(rng, n, symmetric=sym, with_split=name in SPLIT_SCHEMES, multi=rng.random() < 0.3)
             args, ss = self._scheme_args(rng, name)
-            yield {"tag": f"mock_{'sym' if sym else 'asym'}_{name}", "kind": "scheme", "source": "mock",
-                   "scheme": name, "args": args, "signal_scale": ss, "mock": mock, "symmetric": sym}
+            yield self._harden(rng, {"tag": f"mock_{'sym' if sym else 'asym'}_{name}", "kind": "scheme",
+                                     "source": "mock", "scheme": name, "args": args, "signal_scale": ss,
+                                     "mock": mock, "symmetric": sym}, kernel=name in KERNEL_SCHEMES)
         # 4. the util functions called directly (incl. reg_split_from exception / stale-j paths, signals)
         for _ in range(100 if quick else 800):
             n = rng.randint(1, 6)
@@ -444,17 +540,30 @@ class C07(PropertyCheck):
                 c["coefficient"] = q(self._coef(rng))
                 c["coefficient_zeroth"] = q(self._coef(rng))
                 c["weights"] = qlist([gen.dyadic(rng, -3, 3, 3) for _ in range(n)])  # signed: squares anyway
+                r = rng.random()
+                if r < 0.2:   # integer dtype arrays / integer coefficient (0 included)
+                    c["weights"] = qlist([rng.randint(-3, 3) for _ in range(n)])
+                    c["coefficient"] = q(rng.randint(0, 3))
+                    c["coefficient_zeroth"] = q(rng.randint(0, 3))
+                    c["dtype"] = "int"
+                elif r < 0.35:
+                    c["dtype"] = "float32"
             yield c
         # 5. pixel signals: real mappers (integer scale -> exact model) and direct util calls
         for _ in range(24 if quick else 200):
             frame = self._data_frame(rng, big=True)
-            scale = rng.choice([1, 1, 2, 3, Fraction(1, 2), Fraction(3, 2)])
+            scale = rng.choice([1, 1, 2, 3, 0, Fraction(1, 2), Fraction(3, 2)])
             if rng.random() < 0.5:
                 yield {"tag": "signals_rect", "kind": "signals", "source": "rect",
                        "mesh_shape": [rng.randint(3, 5), rng.randint(3, 5)], "signal_scale": q(scale), **frame}
             else:
-                yield {"tag": "signals_delaunay", "kind": "signals", "source": "delaunay",
-                       "points": self._delaunay_points(rng, rng.randint(4, 9)), "signal_scale": q(scale), **frame}
+                integral = rng.random() < 0.3
+                if integral:
+                    frame["int_inputs"] = True
+                yield {"tag": "signals_delaunay" + ("_int" if integral else ""), "kind": "signals",
+                       "source": "delaunay", "points": self._delaunay_points(rng, rng.randint(4, 9), integral),
+                       "signal_scale": q(scale), "container": rng.choice(["ndarray", "list", "irregular"]),
+                       "route": rng.choice(["direct", "direct", "mesh"]), **frame}
         # 7. histories on ONE linear object: read the block, copy.copy / re-assign `regularization`
         #    (another scheme, another coefficient, None), read again — the block must be the CURRENT scheme's
         hist_schemes = ["Constant", "Constant", "AdaptiveBrightness", "ConstantZeroth", "Zeroth",
@@ -476,6 +585,13 @@ class C07(PropertyCheck):
                     sp = dict(pool[0])
                 sp["copy"] = rng.random() < 0.6
                 steps.append(sp)
+            for sp in pool:
+                if sp["scheme"] is not None and rng.random() < 0.3:
+                    sp["arg_type"] = rng.choice(["int", "np32", "np64"])
+            for st in steps:
+                for sp in pool:
+                    if sp["scheme"] == st["scheme"] and sp["args"] == st["args"] and "arg_type" in sp:
+                        st["arg_type"] = sp["arg_type"]
             c = {"kind": "history", "steps": steps, "extra": rng.randint(1, 2), "extra_first": rng.random() < 0.5}
             if rng.random() < 0.6:
                 n = rng.randint(2, 6)
@@ -511,9 +627,12 @@ class C07(PropertyCheck):
                     n = rng.randint(1, 4)
                     name = rng.choice(RATIONAL_SCHEMES + SPLIT_SCHEMES)
                     args, ss = self._scheme_args(rng, name)
-                    objs.append({"type": "mapper", "params": n, "scheme": name, "args": args, "signal_scale": ss,
-                                 "mock": self._mock_obj(rng, n, True, name in SPLIT_SCHEMES)})
-            yield {"tag": f"blocks_{k}", "kind": "inversion", "objs": objs}
+                    objs.append(self._harden(rng, {"type": "mapper", "params": n, "scheme": name, "args": args,
+                                                   "signal_scale": ss,
+                                                   "mock": self._mock_obj(rng, n, True, name in SPLIT_SCHEMES)}))
+            # Preloads(regularization_matrix=...): absent / explicit None / the matrix a fresh equal inversion computes
+            pre = rng.choice(["absent", "none", "correct", "correct"])
+            yield {"tag": f"blocks_{k}_preload_{pre}", "kind": "inversion", "objs": objs, "preload": pre}
 
     # ------------------------------------------------------------------ implementation
     def run_impl(self, case):
@@ -560,14 +679,22 @@ class C07(PropertyCheck):
         if name in KERNEL_SCHEMES:
             pts = [[fl(a), fl(b)] for a, b in tables["points"]]
             args[1] = q(self._resolve_kernel_scale(case, pts))
-        reg = _make_scheme(aa, name, args, case.get("signal_scale"))
+        reg = _make_scheme(aa, name, args, case.get("signal_scale"), case.get("arg_type", "float"),
+                           case.get("defaults", False))
         mp = mapper_f()
         try:
             w = reg.regularization_weights_from(linear_obj=mp)
             H = reg.regularization_matrix_from(linear_obj=mapper_f())
+            # the same block through the linear object's own property (scheme attached to the object)
+            mo = mapper_f()
+            mo.regularization = reg
+            H2 = np.asarray(mo.regularization_matrix)
         except exc.MeshException:
             return {"err": "mesh_exception", "inputs": {"tables": tables, "args": args}}
         H = np.asarray(H)
+        if H2.shape != H.shape or not np.array_equal(H2, H):
+            return {"err": "linear_obj.regularization_matrix differs from regularization_matrix_from(linear_obj)",
+                    "inputs": {"tables": tables, "args": args}}
         obs = {"shape": list(H.shape), "weights": qlist(np.asarray(w)), "matrix": qmat(H),
                "inputs": {"tables": tables, "args": args}}
         if name in KERNEL_SCHEMES:
@@ -606,20 +733,25 @@ class C07(PropertyCheck):
         width = max(len(r) for r in case["neighbors"])
         nb = np.array(case["neighbors"], dtype=int).reshape(n, width)
         sizes = np.array(case["sizes"], dtype=int)
-        c = fl(case["coefficient"])
+        dt = case.get("dtype")
+        c = int(Fraction(case["coefficient"])) if dt == "int" else fl(case["coefficient"])
+        cz = int(Fraction(case["coefficient_zeroth"])) if dt == "int" else fl(case["coefficient_zeroth"])
+        wts = np.array([fl(v) for v in case["weights"]])
+        if dt == "int":
+            wts = wts.astype(np.int64)
+        elif dt == "float32":
+            wts = wts.astype(np.float32)  # 3-bit dyadics: squares exact in float32
         if fn == "constant":
             H = ru.constant_regularization_matrix_from(coefficient=c, neighbors=nb, neighbors_sizes=sizes)
         elif fn == "constant_zeroth":
             H = ru.constant_zeroth_regularization_matrix_from(
-                coefficient=c, coefficient_zeroth=fl(case["coefficient_zeroth"]), neighbors=nb, neighbors_sizes=sizes)
+                coefficient=c, coefficient_zeroth=cz, neighbors=nb, neighbors_sizes=sizes)
         elif fn == "zeroth":
             H = ru.zeroth_regularization_matrix_from(coefficient=c, pixels=n)
         elif fn == "weighted":
-            H = ru.weighted_regularization_matrix_from(
-                regularization_weights=np.array([fl(v) for v in case["weights"]]), neighbors=nb, neighbors_sizes=sizes)
+            H = ru.weighted_regularization_matrix_from(regularization_weights=wts, neighbors=nb, neighbors_sizes=sizes)
         else:
-            H = ru.brightness_zeroth_regularization_matrix_from(
-                regularization_weights=np.array([fl(v) for v in case["weights"]]))
+            H = ru.brightness_zeroth_regularization_matrix_from(regularization_weights=wts)
         return {"matrix": qmat(H)}
 
     def _impl_signals(self, aa, case):
@@ -668,7 +800,8 @@ class C07(PropertyCheck):
                 reg = None
             else:
                 if key not in made:
-                    made[key] = _make_scheme(aa, st["scheme"], st["args"], st.get("signal_scale"))
+                    made[key] = _make_scheme(aa, st["scheme"], st["args"], st.get("signal_scale"),
+                                             st.get("arg_type", "float"))
                 reg = made[key]
             oi = st.get("obj", 0)
             cur = curs[oi]
@@ -702,10 +835,27 @@ class C07(PropertyCheck):
                 objs.append(aa.m.MockLinearObj(parameters=o["params"], regularization=None))
                 blocks.append(None)
             else:
-                reg = _make_scheme(aa, o["scheme"], o["args"], o.get("signal_scale"))
+                reg = _make_scheme(aa, o["scheme"], o["args"], o.get("signal_scale"), o.get("arg_type", "float"),
+                                   o.get("defaults", False))
                 objs.append(_mock_mapper(aa, o["mock"], regularization=reg))
                 blocks.append(True)
-        inv = aa.m.MockInversion(linear_obj_list=objs)
+        pre = case.get("preload", "absent")
+        if pre == "absent":
+            inv = aa.m.MockInversion(linear_obj_list=objs)
+        elif pre == "none":
+            inv = aa.m.MockInversion(linear_obj_list=objs, preloads=aa.Preloads(regularization_matrix=None))
+        else:
+            # what a previous, equal inversion computed — handed back through Preloads
+            objs0 = []
+            for o in case["objs"]:
+                if o["type"] == "linear_obj":
+                    objs0.append(aa.m.MockLinearObj(parameters=o["params"], regularization=None))
+                else:
+                    objs0.append(_mock_mapper(aa, o["mock"], regularization=_make_scheme(
+                        aa, o["scheme"], o["args"], o.get("signal_scale"), o.get("arg_type", "float"),
+                        o.get("defaults", False))))
+            H0 = np.array(aa.m.MockInversion(linear_obj_list=objs0).regularization_matrix, dtype=float)
+            inv = aa.m.MockInversion(linear_obj_list=objs, preloads=aa.Preloads(regularization_matrix=H0))
         H = np.asarray(inv.regularization_matrix)
         R = np.asarray(inv.regularization_matrix_reduced)
         # the per-object matrices, each from a fresh equal object (observed, for the oracle)
@@ -714,7 +864,8 @@ class C07(PropertyCheck):
             if o["type"] == "linear_obj":
                 per_obj.append(None)
             else:
-                reg = _make_scheme(aa, o["scheme"], o["args"], o.get("signal_scale"))
+                reg = _make_scheme(aa, o["scheme"], o["args"], o.get("signal_scale"), o.get("arg_type", "float"),
+                                   o.get("defaults", False))
                 per_obj.append(qmat(np.asarray(reg.regularization_matrix_from(linear_obj=_mock_mapper(aa, o["mock"])))))
         return {"matrix": qmat(H), "reduced": qmat(R),
                 "no_reg": [int(v) for v in inv.no_regularization_index_list],
